@@ -179,6 +179,38 @@ func (d *Describer) Classify(v ssa.Value) *CondInfo {
 	return &CondInfo{Key: d.D(v), Kind: "bool", True: map[string]bool{"T": true}}
 }
 
+// feasibleDomain returns the domain values an atom can take at all: len(X) and
+// cap(X) are never negative, so ord(0, len(X)) is never ">" and
+// ord(len(X), 0) never "<".
+func feasibleDomain(ci *CondInfo) []string {
+	d := domains[ci.Kind]
+	if ci.Kind != "ord" {
+		return d
+	}
+	isLen := func(s string) bool { return strings.HasPrefix(s, "len(") || strings.HasPrefix(s, "cap(") }
+	switch {
+	case ci.A == "0" && isLen(ci.B):
+		return []string{"<", "="}
+	case ci.B == "0" && isLen(ci.A):
+		return []string{"=", ">"}
+	}
+	return d
+}
+
+// infeasible reports whether value v is impossible for the atom with this key in fn.
+func (d *Describer) infeasible(found map[string]*CondInfo, key, v string) bool {
+	ci := found[key]
+	if ci == nil {
+		return false
+	}
+	for _, x := range feasibleDomain(ci) {
+		if x == v {
+			return false
+		}
+	}
+	return true
+}
+
 // Sigma is a valuation: atom key -> domain value.
 type Sigma map[string]string
 
@@ -438,6 +470,26 @@ func (d *Describer) Table(fn *ssa.Function, from *ssa.BasicBlock, stop map[*ssa.
 			return res, fmt.Errorf("atom %s: no branch condition of %s matches %q", a.Name, FuncName(fn), a.Pat+a.OrdA+" ~ "+a.OrdB)
 		}
 		doms[i] = domains[kind]
+		if kind == "ord" {
+			// drop values that are impossible for every bound key (len/cap vs 0)
+			var keep []string
+			for _, v := range doms[i] {
+				ok := false
+				for _, k := range res.Bound[a.Name] {
+					vv := v
+					if flipped[k] {
+						vv = map[string]string{"<": ">", ">": "<", "=": "="}[v]
+					}
+					if !d.infeasible(found, k, vv) {
+						ok = true
+					}
+				}
+				if ok {
+					keep = append(keep, v)
+				}
+			}
+			doms[i] = keep
+		}
 		if len(a.Dom) > 0 {
 			doms[i] = a.Dom
 		}
